@@ -520,7 +520,8 @@ pub fn run_scenario(scn: &Scenario, prefix: &[usize]) -> RunResult {
                     shared.obs.lock().unwrap().push(Obs::DropCheck { t, dropped, live_handles: live, cur_gen: nucleo.as_ref().map(|_| gen), op: format!("{op:?}") });
                 }
                 if let Some(n) = nucleo.as_ref() {
-                    let reported = n.active_injectors();
+                    // a panic inside the count itself (arithmetic underflow) is a wrong count
+                    let reported = std::panic::catch_unwind(std::panic::AssertUnwindSafe(|| n.active_injectors())).unwrap_or(usize::MAX);
                     let expected = held.iter().filter(|h| h.as_ref().map_or(false, |(_, g)| *g == gen)).count();
                     let t = exec.now();
                     shared.obs.lock().unwrap().push(Obs::Active { t, reported, expected, op: format!("{op:?}") });
